@@ -34,10 +34,105 @@ package dnum
 //@   ghost k int = p
 //@   ensures! zero: (sign == 0 || coef == 0 || exp < -128) ==> r.sign == 0
 //@   ensures! inf: sign != 0 && coef != 0 && exp >= -128 && (sign == 2 || sign == -2) ==> r.sign == sign
-//@   ensures! exact: (sign == 1 || sign == -1) && coef != 0 && coef <= 9999999999999999 && exp >= -128 ==> 0 <= k && k <= 15 && ((exp - k > 127 && r.sign == 2 * sign) || (exp - k <= 127 && r.sign == sign && r.coef == coef * p10(k) && r.exp == exp - k))
-//@   ensures! rounded: (sign == 1 || sign == -1) && coef > 9999999999999999 && exp >= -128 ==> (r.sign == 2 * sign || (r.sign == sign && 1 <= r.exp - exp && r.exp - exp <= 4 && (coef - r.coef * p10(r.exp - exp)) < p10(r.exp - exp) && (r.coef * p10(r.exp - exp) - coef) < p10(r.exp - exp)))
+//@   ensures! exact: (sign == 1 || sign == -1) && coef != 0 && coef <= 9999999999999999 && exp >= -128 ==> 0 <= k && k <= 15 && ((exp - k > 127 && r.sign == 2 * sign) || (exp - k < -128 && r.sign == 0) || (-128 <= exp - k && exp - k <= 127 && r.sign == sign && r.coef == coef * p10(k) && r.exp == exp - k))
+//@   ensures! rounded: (sign == 1 || sign == -1) && coef > 9999999999999999 && exp >= -128 ==> ((r.sign == 2 * sign && exp + 4 > 127) || (r.sign == sign && 1 <= r.exp - exp && r.exp - exp <= 4 && (coef - r.coef * p10(r.exp - exp)) < p10(r.exp - exp) && (r.coef * p10(r.exp - exp) - coef) < p10(r.exp - exp)))
 //@   loop 0 unroll 4
 
 //@ func Raw(sign, coef, exp) (r)
 //@   requires -128 <= exp && exp <= 127 && validParts(sign, coef, exp)
 //@   ensures! r.sign == sign && r.coef == coef && r.exp == exp
+
+// ---- accessors ------------------------------------------------------------
+//@ func (dn Dnum) IsInf() (r)
+//@   ensures! r <==> dn.sign == 2 || dn.sign == -2
+//@ func (dn Dnum) IsZero() (r)
+//@   ensures! r <==> dn.sign == 0
+//@ func (dn Dnum) Sign() (r)
+//@   ensures! r == dn.sign
+//@ func (dn Dnum) Coef() (r)
+//@   ensures! r == dn.coef
+//@ func (dn Dnum) Exp() (r)
+//@   ensures! r == dn.exp
+//@ func (dn Dnum) Neg() (r)
+//@   ensures! r.sign == -dn.sign && r.coef == dn.coef && r.exp == dn.exp
+//@ func (dn Dnum) Abs() (r)
+//@   ensures! r.sign == (dn.sign < 0 ? -dn.sign : dn.sign) && r.coef == dn.coef && r.exp == dn.exp
+
+// ---- order ------------------------------------------------------------------
+// magnitude order of valid finite numbers is (exp, coef) lexicographic because
+// the coefficient always has exactly 16 digits
+//@ spec dnLess(x Dnum, y Dnum) bool = x.sign < y.sign || (x.sign == y.sign && (x.sign == 1 || x.sign == -1) && (x.sign == 1 ? (x.exp < y.exp || (x.exp == y.exp && x.coef < y.coef)) : (x.exp > y.exp || (x.exp == y.exp && x.coef > y.coef))))
+//@ func Equal(x, y) (r)
+//@   ensures! r <==> x.sign == y.sign && x.exp == y.exp && x.coef == y.coef
+//@ func Compare(x, y) (r)
+//@   ensures! range: r == -1 || r == 0 || r == 1
+//@   ensures! less: r == -1 <==> dnLess(x, y)
+//@   ensures! greater: r == 1 <==> dnLess(y, x)
+//@ lemma! compare_total(x Dnum, y Dnum): dnLess(x, y) || dnLess(y, x) || (x.sign == y.sign && x.exp == y.exp && x.coef == y.coef)
+//@ lemma! compare_antisym(x Dnum, y Dnum): !(dnLess(x, y) && dnLess(y, x))
+//@ lemma! compare_trans(x Dnum, y Dnum, z Dnum): dnLess(x, y) && dnLess(y, z) ==> dnLess(x, z)
+//@ lemma! compare_equal(x Dnum, y Dnum): Compare(x, y) == 0 <==> Equal(x, y)
+
+// ---- integers -----------------------------------------------------------------
+//@ spec dnIsInt(d Dnum) bool = d.sign == 0 || ((d.sign == 1 || d.sign == -1) && ((0 < d.exp && d.exp < 16 && d.coef % p10(16 - d.exp) == 0) || (16 <= d.exp && d.exp <= 19)))
+//@ spec dnIntVal(d Dnum) int = d.sign == 0 ? 0 : d.exp < 16 ? d.sign * (d.coef / p10(16 - d.exp)) : d.sign * d.coef * p10(d.exp - 16)
+
+//@ func FromInt(n) (r)
+//@   arith wrap
+//@   ensures! exact: -9999999999999999 <= n && n <= 9999999999999999 ==> dnIsInt(r) && dnIntVal(r) == n
+//@   ensures! sign: (n == 0 <==> r.sign == 0) && (n < 0 <==> r.sign == -1) && (n > 0 <==> r.sign == 1)
+
+//@ func (dn Dnum) ToInt64() (n, ok)
+//@   ensures! exact: ok ==> dnIsInt(dn) && n == dnIntVal(dn)
+//@   ensures! complete: !ok ==> !dnIsInt(dn) || (dn.exp == 19 && dn.coef >= 9223372036854775)
+//@ func (dn Dnum) ToInt() (n, ok)
+//@   ensures! exact: ok ==> dnIsInt(dn) && n == dnIntVal(dn)
+//@ lemma! fromint_toint64(n int64): -9999999999999999 <= n && n <= 9999999999999999 ==> ToInt64(FromInt(n)).ok && ToInt64(FromInt(n)).n == n
+
+//@ func check(c)
+//@   inline
+
+// ---- addition -------------------------------------------------------------------
+// align scales y's coefficient to x's exponent (rounding half up); it refuses
+// when y is too small to matter
+//@ func align(x, y) (c, ok)
+//@   requires x != nil && y != nil && validDnum(deref(x)) && validDnum(deref(y)) && (x.sign == 1 || x.sign == -1) && (y.sign == 1 || y.sign == -1) && x.exp >= y.exp
+//@   ensures! same: x.exp == y.exp ==> ok && c == y.coef
+//@   ensures! scaled: ok && x.exp > y.exp ==> 1 <= x.exp - y.exp && x.exp - y.exp <= 15 && c == (y.coef + p10(x.exp - y.exp) / 2) / p10(x.exp - y.exp)
+//@   ensures! bound: ok ==> c <= 9999999999999999
+//@   ensures! small: !ok ==> x.exp - y.exp > 15 && c == 0
+
+//@ func add(x, y) (r)
+//@   requires (x.sign == 1 || x.sign == -1) && (y.sign == 1 || y.sign == -1) && x.exp >= y.exp
+//@ func Add(x, y) (r)
+//@   ensures! zero_left: x.sign == 0 ==> r == y
+//@   ensures! zero_right: x.sign != 0 && y.sign == 0 ==> r == x
+//@   ensures! inf: x.sign != 0 && y.sign != 0 && (x.sign == 2 || x.sign == -2) ==> (y.sign == -x.sign ? r.sign == 0 : r == x)
+//@ func Sub(x, y) (r)
+
+// ---- multiplication / division (outer logic; div128 is not under contract) -------------
+//@ func Mul(x, y) (r)
+//@   ensures! zero: x.sign == 0 || y.sign == 0 ==> r.sign == 0
+//@   ensures! inf: x.sign != 0 && y.sign != 0 && (x.sign == 2 || x.sign == -2 || y.sign == 2 || y.sign == -2) ==> r.sign == (x.sign * y.sign < 0 ? -2 : 2)
+//@   ensures! sign: x.sign != 0 && y.sign != 0 ==> r.sign == 0 || (r.sign < 0 <==> x.sign * y.sign < 0)
+
+// ---- integer part ----------------------------------------------------------------------
+//@ func (dn Dnum) Frac() (r)
+//@ func (dn Dnum) integer(mode) (r)
+//@ func (dn Dnum) Trunc() (r)
+//@ func (dn Dnum) Hash() (r)
+//@   mode bv
+
+// div128 (Knuth algorithm D on 128 bits) is NOT under contract: assumed bound only
+//@ func div128(x, y) (r)
+//@   assumed
+//@   pure
+//@   requires y != 0
+//@   ensures 1000000000000000 <= x && x <= 9999999999999999 && 1000000000000000 <= y && y <= 9999999999999999 ==> 1000000000000000 <= r && r <= 100000000000000000
+//@ func Div(x, y) (r)
+//@   ensures! zero: x.sign == 0 ==> r.sign == 0
+//@   ensures! by_zero: x.sign != 0 && y.sign == 0 ==> r.sign == (x.sign < 0 ? -2 : 2)
+//@   ensures! inf_inf: (x.sign == 2 || x.sign == -2) && (y.sign == 2 || y.sign == -2) ==> r.coef == 1000000000000000 && r.exp == 1 && r.sign == (x.sign * y.sign < 0 ? -1 : 1)
+//@   ensures! by_inf: (x.sign == 1 || x.sign == -1) && (y.sign == 2 || y.sign == -2) ==> r.sign == 0
+//@ func (dn Dnum) Round(r, mode) (res)
+//@   requires -1000 <= r && r <= 1000
